@@ -335,6 +335,27 @@ def handle(req):
                 for pvs in streams:
                     out.append([name, [dict(p) for p in pvs]])
         return {"jobs": out}
+    if op == "load_pv_files":
+        # the project's own reader of saved PV job files (what pv2puml uses)
+        from tel2puml.pv_to_puml.pv_to_puml import pv_job_file_to_event_sequence
+        from tel2puml.tel2puml_types import PVEventMappingConfig
+        mc = PVEventMappingConfig(**req["mapping"]) if req.get("mapping") else PVEventMappingConfig()
+        return {"jobs": [[dict(e) for e in pv_job_file_to_event_sequence(f, mc)] for f in req["files"]]}
+    if op == "gates":
+        # calculate_logic_gates on a batch of families (each a list of lists of event types)
+        from tel2puml.events import EventSet
+        from tel2puml.logic_detection import calculate_logic_gates
+        def tree(n):
+            if n is None: return None
+            if n.operator is None: return str(n.label) if n.label is not None else "tau"
+            return [str(n.operator.value)] + [tree(c) for c in n.children]
+        out = []
+        for fam in req["families"]:
+            try:
+                out.append({"tree": tree(calculate_logic_gates({EventSet(list(s)) for s in fam}))})
+            except BaseException as ex:
+                out.append({"error": f"{type(ex).__name__}: {str(ex)[:200]}"})
+        return {"results": out}
     if op == "ingest":
         events = update_and_create_events_from_clustered_pvevents(req["jobs"], add_dummy_start=True)
         return {"model": dump_model(events), "file": events_to_raw_input(events)}
